@@ -15,22 +15,52 @@ type eraCtx struct {
 	c     *Ctx
 	a     *Acts
 	reps  []uint32
+	repsQ map[uint32]bool // the quick-tier representatives (subset of reps)
 	sb    map[uint32]*Trace // SyncBlock
 	gr    map[uint32]*Trace // Grade
 	gs    map[uint32]*Trace // GradeS
 	db    map[uint32]*Trace // DBlockSync (height = Synced+1)
 	quiet map[uint32]*Trace // SyncBlock, no fault, nothing on the tracked chains
+	globals map[string]AVal  // activation overrides of a configuration variant ("config.X" -> value)
 }
 
 func hconst(h uint32) AVal { return cUint(uint64(h)) }
 
+// newEraCtxVariant: the same tables under another placement of activation heights (the properties that
+// quantify over configurations: alignment of activations with the 144-block cadence).
+func newEraCtxVariant(c *Ctx, r *Report, overrides map[string]uint32) *eraCtx {
+	e := newEraCtx(c, nil)
+	a := &Acts{m: map[string]uint32{}, extraConsts: e.a.extraConsts, moduli: e.a.moduli}
+	for k, v := range e.a.m {
+		a.m[k] = v
+	}
+	e.globals = map[string]AVal{}
+	for k, v := range overrides {
+		a.m[k] = v
+		e.globals["config."+k] = hconst(v)
+	}
+	e.a = a
+	e.reps = a.reps(false)
+	e.repsQ = map[uint32]bool{}
+	for _, h := range e.reps {
+		e.repsQ[h] = true
+	}
+	return e
+}
+
 func newEraCtx(c *Ctx, r *Report) *eraCtx {
 	e := &eraCtx{c: c, a: c.activations(), sb: map[uint32]*Trace{}, gr: map[uint32]*Trace{}, gs: map[uint32]*Trace{}, db: map[uint32]*Trace{}, quiet: map[uint32]*Trace{}}
 	e.reps = e.a.reps(c.Tier == "thorough")
-	r.Extra["height_classes"] = len(e.reps)
-	r.Extra["activations"] = e.a.m
-	r.Extra["height_literals_in_code"] = e.a.extraConsts
-	r.Extra["height_moduli_in_code"] = e.a.moduli
+	e.repsQ = map[uint32]bool{}
+	for _, h := range e.a.reps(false) {
+		e.repsQ[h] = true
+	}
+	if r != nil {
+		r.Extra["height_classes"] = len(e.reps)
+		r.Extra["activations"] = e.a.m
+		r.Extra["height_literals_in_code"] = e.a.extraConsts
+		r.Extra["height_moduli_in_code"] = e.a.moduli
+	}
 	return e
 }
 
@@ -44,6 +74,7 @@ func (e *eraCtx) syncBlock(h uint32) *Trace {
 		// SelectPendingRates returns a freshly made (non-nil) map on its nil-error path
 		MaxDepth: 2,
 		NoInline: map[string]bool{"multiFetch": true},
+		Globals:  e.globals,
 	}
 	t := newSCCP(e.c, sc).analyse(e.c.fn("node.Pegnetd.SyncBlock"), nil)
 	e.sb[h] = t
@@ -62,6 +93,7 @@ func (e *eraCtx) syncBlockNoFault(h uint32) *Trace {
 		Calls:        map[string]AVal{"isDone": cBool(false)},
 		MaxDepth:     0,
 		AllErrorsNil: true,
+		Globals:      e.globals,
 	}
 	t := newSCCP(e.c, sc).analyse(e.c.fn("node.Pegnetd.SyncBlock"), nil)
 	e.quiet[h] = t
@@ -78,7 +110,7 @@ func (e *eraCtx) grade(h uint32, which string) *Trace {
 	if t, ok := m[h]; ok {
 		return t
 	}
-	sc := &Scenario{Name: fmt.Sprintf("%s height=%d", fn, h), Paths: map[string]AVal{"factom.EBlock.Height": hconst(h)}, MaxDepth: 1}
+	sc := &Scenario{Name: fmt.Sprintf("%s height=%d", fn, h), Paths: map[string]AVal{"factom.EBlock.Height": hconst(h)}, MaxDepth: 1, Globals: e.globals}
 	t := newSCCP(e.c, sc).analyse(e.c.fn(fn), nil)
 	m[h] = t
 	return t
@@ -89,7 +121,7 @@ func (e *eraCtx) dblockSync(h uint32) *Trace {
 		return t
 	}
 	sc := &Scenario{Name: fmt.Sprintf("DBlockSync next=%d", h), Paths: map[string]AVal{"pegnet.BlockSync.Synced": hconst(h - 1)}, MaxDepth: 1,
-		NoInline: map[string]bool{"SyncBlock": true, "InsertSynced": true}}
+		NoInline: map[string]bool{"SyncBlock": true, "InsertSynced": true}, Globals: e.globals}
 	t := newSCCP(e.c, sc).analyse(e.c.Sync, nil)
 	e.db[h] = t
 	return t
